@@ -12,6 +12,7 @@
       proved in `C05_mutex`; it is monitored at run time by the harness' re-entrancy detector.
 -/
 import OrxPar.Lemmas.Logged
+import OrxPar.Lemmas.KernelsW
 import OrxPar.Lemmas.Ticket
 namespace OrxPar
 
@@ -27,6 +28,20 @@ theorem C05_full_counts (s : Src) (ops : List Op) (ex : Exec)
     (e : Event) :
     ((Par.build s ops).2 ++ (Par.build s ops).1.fullLog ex).count e = (seqStream s.items ops).log.count e :=
   (C05_full s ops ex h).count_eq e
+
+/-- **C05 (kernels).** the per-element work of each kernel family, transcribed with logged
+    closures (`mapFilStep`, `filtermapFilStep`, `flatmapFilStep`) and given the closures its
+    terminal passes down (`Par.kernelStep`), is exactly the pipeline's logged stream of that
+    element — no closure is evaluated twice or skipped inside a kernel -/
+theorem C05_kernel_step (P : Par) (x : Val) : P.kernelStep x = P.elem x :=
+  Par.kernelStep_eq_elem P x
+
+/-- hence the events of a parallel terminal phase, written with the kernels' own steps, are a
+    permutation of the sequential events of the pipeline -/
+theorem C05_kernel_log (P : Par) (ex : Exec) (h : ex.Accepts P.src.items) :
+    (P.kernelLog ex).Perm P.stream.log := by
+  rw [Par.kernelLog_eq_parLog]
+  exact Par.parLog_perm P ex h
 
 /-- **C05 (short-circuit, parallel).** at most once per element that reaches the stage -/
 theorem C05_short_par (P : Par) (q : Val → Bool) (ex : Exec) (n : Nat)
